@@ -41,7 +41,8 @@ Print Assumptions C09_trailer_layout.
    tree invariant TI holds with nothing pending: at every index level k <= index_levels the entries
    of the level-k blocks, in order, are exactly the (last key, u64 BE offset) items of the level-(k+1)
    blocks in order, and the data level (index_levels + 1) spells exactly the inserted entries; the
-   root block is the last block and the trailer points to it. ================= *)
+   root block is the last block and the trailer points to it; it is the only block of level 0, and
+   only it can be empty. ================= *)
 From Grenad.model Require Import Writer Reader.
 From Grenad.proofs Require Import WriterInv WriterLayout WriterTree.
 
@@ -53,8 +54,8 @@ Theorem C09_file_structure : forall compress decompress c,
     laid_out compress c (rev lg) body /\ map fst gl = rev lg /\ Forall (ents c) gl /\
     TI (wc_levels c) gl (fun _ => []) es /\
     vs_bytes s = body ++ trailer_bytes m /\ vs_count s = len (vs_bytes s) /\
-    m_version m = FormatV2 /\ m_codec m = wc_codec c /\ m_levels m = u8 (wc_levels c) /\
-    exists gl0 e0 es0, gl = gl0 ++ [(e0, es0)] /\ em_level e0 = 0 /\ em_offset e0 = m_root m.
+    m_version m = FormatV2 /\ m_codec m = wc_codec c /\ m_count m = len es /\ m_levels m = u8 (wc_levels c) /\
+    exists gl0 e0 es0, gl = gl0 ++ [(e0, es0)] /\ em_level e0 = 0 /\ em_offset e0 = m_root m /\ Forall nz gl0.
 Proof. exact w_run_tree. Qed.
 Print Assumptions C09_file_structure.
 
@@ -67,3 +68,27 @@ Theorem C09_blocks_load_back : forall compress decompress c,
   load_block decompress (f ++ tail) (wc_codec c) ord (em_offset e) = parse_block (em_bytes e).
 Proof. exact laid_out_load. Qed.
 Print Assumptions C09_blocks_load_back.
+
+(* ================= the written file is a well-formed store =================
+   Final assembly of backbone W: under the same hypotheses, for a non-empty strictly ascending
+   input, the file IS a well-formed store in the sense of the reader refinement (every recorded
+   offset loads to a well-formed block: strictly ascending framed entries, restart table with first
+   offset 0 and one per index interval; every index item is the (last key, u64 BE offset) of the
+   child block it points to; all level sequences strictly ascending; different levels at different
+   offsets), its content — the data level read left to right — is exactly the inserted entries, and
+   the trailer carries version 2, the codec, the entry count and the index levels. *)
+From Grenad.proofs Require Import ReaderRefine WriterStore.
+
+Theorem C09_written_file_well_formed : forall compress decompress c,
+  (forall b z, compress (wc_codec c) (wc_level c) b = Done z -> decompress (wc_codec c) z = Done b) ->
+  forall es i s lg m, wc_levels c < 256 -> 1 <= wc_interval c ->
+  w_run_gen vsink vs_wr vs_fl vs_count compress c vs_empty es = (i, Done (s, lg, m)) ->
+  es <> [] -> sorted_strictb (map fst es) = true ->
+  len (vs_bytes s) < 2^64 -> mem_ok lg ->
+  exists bstore,
+    wf_store (load_block decompress (vs_bytes s) (wc_codec c)) (m_root m) (wc_levels c) bstore /\
+    content (m_root m) (wc_levels c) bstore = es /\
+    m_version m = FormatV2 /\ m_codec m = wc_codec c /\ m_count m = len es /\ m_levels m = wc_levels c /\
+    exists body, vs_bytes s = body ++ trailer_bytes m.
+Proof. exact written_file_wf. Qed.
+Print Assumptions C09_written_file_well_formed.
